@@ -69,6 +69,7 @@ impl TraceOut {
 fn drive(
     a: &Value,
     groups: u32,
+    keep: u32,
     mut one: impl FnMut(Config) -> (controller::RunRecord, Value, Option<String>),
     out: &mut TraceOut,
 ) -> Value {
@@ -83,7 +84,8 @@ fn drive(
     let dfs_mode = a["policy"].as_str().unwrap_or("dfs") == "dfs";
     let mut body = |cfg: Config, out: &mut TraceOut| -> controller::RunRecord {
         let (rec, header, violation) = one(cfg);
-        let evs = events_json(&rec);
+        let evs: Vec<Value> =
+            rec.events.iter().filter(|e| e.group & keep != 0).map(|e| e.to_json()).collect();
         steps += rec.steps;
         distinct.insert(rec.schedule.join(","));
         if sample.is_null() {
@@ -137,6 +139,7 @@ fn cmd_wait(a: &Value) -> Value {
     let mut res = drive(
         a,
         groups,
+        u32::MAX,
         |cfg| {
             let o = wait_probe(cfg, notifiers, spurious);
             let violation = if o.record.verdict.is_some() {
@@ -180,6 +183,7 @@ fn cmd_cursor(a: &Value) -> Value {
         let mut res = drive(
             a,
             groups,
+            group::CURSOR,
             |cfg| {
                 let o = cursor_probe(cfg, script);
                 let mut h = header.clone();
@@ -299,6 +303,7 @@ fn cmd_dep(a: &Value) -> Value {
         let mut res = drive(
             a,
             groups,
+            group::DEP | group::DEPX | 0x8000_0000,
             |cfg| {
                 let o = dep_probe(cfg, &script);
                 let violation = if let Some(v) = &o.record.verdict {
